@@ -26,6 +26,7 @@ type Features struct {
 	MaxNodes   int
 	WSText     bool // text nodes rich in whitespace (for trim laws)
 	Model      bool // only constructs whose result the reference model defines
+	NoVarReuse bool // assigned/captured names are never read by generated expressions
 }
 
 // StdEnv is a binding environment covering every kind; values vary with r.
@@ -346,12 +347,20 @@ func (g *G) node(depth int) Node {
 			return Out{E: g.Value(depth), T: g.trim()}
 		case c == 8 && g.F.Assign:
 			name := []string{"v1", "v2", "n", "s"}[r.Intn(4)] // may shadow bindings
-			g.vars = append(g.vars, name)
+			if g.F.NoVarReuse {
+				name = []string{"v1", "v2"}[r.Intn(2)]
+			} else {
+				g.vars = append(g.vars, name)
+			}
 			return Assign{Name: name, E: g.Value(depth), T: g.trim()}
 		case c == 9 && g.F.Capture && !leaf:
 			name := []string{"c1", "c2", "s2"}[r.Intn(3)]
 			body := g.seq(depth+1, r.Range(1, 3))
-			g.vars = append(g.vars, name)
+			if g.F.NoVarReuse {
+				name = []string{"c1", "c2"}[r.Intn(2)]
+			} else {
+				g.vars = append(g.vars, name)
+			}
 			tt := [2]Trim{g.trim(), g.trim()}
 			return Capture{Name: name, Body: body, T: tt}
 		case (c == 10 || c == 11) && !leaf:
